@@ -429,10 +429,12 @@ def statistics(res):
             res.violation("dist.support-line", f"Line.draw_repair_time returned {t} h, configured truncated normal has support [0.5, 2.0] h", {"kind": "dist", "name": "line"})
             break
     # frequency: N steps of 1 h at rate r: expected N*r/8760.5; 5 sigma
-    for rate in (200.0, 2000.0):
+    # with the generator a simulation distributes, and without any (components stepped on their own fall back on a fresh generator)
+    for rate, own_rng in ((200.0, True), (2000.0, True), (900.0, False), (4000.0, False)):
         b = Bus("Bf", fail_rate_per_year=rate, repair_time_dist=StatDist(StatDistType.UNIFORM_FLOAT, UniformParameters(0.0, 0.0)))
-        b.ps_random = g
-        N, fails, was = 20000, 0, False
+        if own_rng:
+            b.ps_random = g
+        N, fails, was = (20000 if own_rng else 3000), 0, False
         trials = 0
         for _ in range(N):
             was = b.trafo_failed
@@ -445,7 +447,7 @@ def statistics(res):
         res.evaluations += 1
         res.extra.setdefault("frequency_tests", []).append({"rate": rate, "trials": trials, "failures": fails, "expected": trials * p, "sigma": sd})
         if abs(fails - trials * p) > 5 * sd + 1:
-            res.violation("two.frequency", f"rate {rate}/year: {fails} failures in {trials} hourly trials, expected {trials * p:.1f} +- {sd:.1f}", {"kind": "freq", "rate": rate})
+            res.violation("two.frequency", f"rate {rate}/year ({'distributed generator' if own_rng else 'no generator distributed'}): {fails} failures in {trials} hourly trials, expected {trials * p:.1f} +- {sd:.1f}", {"kind": "freq", "rate": rate})
 
 
 def run(res):
